@@ -689,6 +689,71 @@ func TestAliasing(t *testing.T) {
 			})
 		}
 	}
+	// operands that come out of other operations (their dimension lists may have spare capacity: reducers, products):
+	// no later operation or back-propagation changes their shape or elements (seed C10-5)
+	{
+		base := randRef(rng, []int{2, 3, 2, 3}, -1, 1)
+		producers := map[string]func(x tensor.Tensor) (tensor.Tensor, error){
+			"SumAlong2": func(x tensor.Tensor) (tensor.Tensor, error) { return x.SumAlong(2) },
+			"MaxAlong1": func(x tensor.Tensor) (tensor.Tensor, error) { return x.MaxAlong(1) },
+			"StdAlong2": func(x tensor.Tensor) (tensor.Tensor, error) { return x.StdAlong(2) },
+			"MatMul":    func(x tensor.Tensor) (tensor.Tensor, error) { t, _ := x.Transpose(); return x.MatMul(t) },
+			"Squeeze": func(x tensor.Tensor) (tensor.Tensor, error) {
+				s, err := x.SumAlong(2)
+				if err != nil {
+					return nil, err
+				}
+				u, err := s.UnSqueeze(2)
+				if err != nil {
+					return nil, err
+				}
+				return u.Squeeze(2)
+			},
+		}
+		later := map[string]func(y tensor.Tensor) (tensor.Tensor, error){
+			"UnSqueeze0": func(y tensor.Tensor) (tensor.Tensor, error) { return y.UnSqueeze(0) },
+			"UnSqueeze1": func(y tensor.Tensor) (tensor.Tensor, error) { return y.UnSqueeze(1) },
+			"Flatten0":   func(y tensor.Tensor) (tensor.Tensor, error) { return y.Flatten(0) },
+			"Transpose":  func(y tensor.Tensor) (tensor.Tensor, error) { return y.Transpose() },
+			"SumAlong0":  func(y tensor.Tensor) (tensor.Tensor, error) { return y.SumAlong(0) },
+			"Reshape":    func(y tensor.Tensor) (tensor.Tensor, error) { return y.Reshape([]int{numel(y.Shape())}) },
+			"Broadcast":  func(y tensor.Tensor) (tensor.Tensor, error) { return y.Broadcast(append([]int{2}, y.Shape()...)) },
+		}
+		for pn, prod := range producers {
+			for ln, op := range later {
+				pn, ln, prod, op := pn, ln, prod, op
+				guard(r, "alias:derived-operand", func() {
+					y, err := prod(toT(base, true))
+					if err != nil {
+						return
+					}
+					before := fromT(y)
+					if _, err := op(y); err != nil {
+						return
+					}
+					if msg := eqRef(y, before, 0); msg != "" {
+						r.fail("alias:derived-operand", fmt.Sprintf("%s then %s changed its operand: %s", pn, ln, msg))
+						return
+					}
+					// and a back-propagation through the producer leaves its result's shape and elements alone
+					x2 := toT(base, true)
+					y2, err := prod(x2)
+					if err != nil {
+						return
+					}
+					b2 := fromT(y2)
+					if err := tensor.BackPropagate(y2); err != nil {
+						return
+					}
+					if msg := eqRef(y2, b2, 0); msg != "" {
+						r.fail("alias:derived-operand", fmt.Sprintf("back-propagation from the result of %s changed that result: %s", pn, msg))
+						return
+					}
+					r.ok("derived operand untouched")
+				})
+			}
+		}
+	}
 	// nested data passed to TensorOf
 	d2 := [][]float64{{1, 2}, {3, 4}}
 	x, _ := tensor.TensorOf(d2, nil)
